@@ -25,6 +25,15 @@ Definition lst_of (id : Z) : option (list (option Z)) :=
   if id mod 11 =? 5 then None
   else Some (map (fun e => if e mod 5 =? 0 then None else Some e) (zseq id (Z.to_nat (id mod 4)))).
 
+(* List<List<Int32>> `ll` column (two repetition levels): null / empty outer lists, null / empty
+   inner lists, null elements *)
+Definition ll_of (id : Z) : option (list (option (list (option Z)))) :=
+  if id mod 17 =? 3 then None
+  else Some (map (fun j => if j mod 7 =? 0 then None
+                           else Some (map (fun e => if e mod 6 =? 0 then None else Some e)
+                                          (zseq j (Z.to_nat (j mod 3)))))
+                 (zseq id (Z.to_nat (id mod 3)))).
+
 (* ------------------------------------------------------------------ predicates (ArrowPredicateFn) *)
 (* kind 0: id mod p1 <> p2      kind 1: val < p1 (NULL -> not selected)
    kind 2: val IS NULL           kind 3: p1 <= id < p2 *)
